@@ -358,11 +358,21 @@ convert_log_to_table(ldb_repair_t *rep, uint64_t log) {
   return rc;
 }
 
+static int
+compare_ascending(uint64_t x, uint64_t y) {
+  return LDB_CMP(x, y);
+}
+
 static void
 convert_logs_to_tables(ldb_repair_t *rep) {
   char fname[LDB_PATH_MAX];
   size_t i;
   int rc;
+
+  /* Convert in the order in which the logs were written (the directory
+     listing has no particular order). The tables get increasing numbers,
+     and level-0 lookups trust a higher number to hold newer data. */
+  ldb_array_sort(&rep->logs, compare_ascending);
 
   for (i = 0; i < rep->logs.length; i++) {
     uint64_t log = rep->logs.items[i];
